@@ -44,6 +44,7 @@ func VerifH_C07_wholeFileBloomFilters() {
 	w := NewGenericWriter[verifRecI](buf, opts...)
 	var groups [][]verifRecI
 	var pending []verifRecI
+	multi := false
 	batches := vChoose("batches", 1, 2)
 	for b := 0; b < batches; b++ {
 		r := mk(b)
@@ -53,7 +54,8 @@ func VerifH_C07_wholeFileBloomFilters() {
 		}
 		pending = append(pending, r)
 	}
-	if vChoose("thenWriteRowGroup", 0, 1) == 1 {
+	switch vChoose("thenWriteRowGroup", 0, 2) {
+	case 1:
 		extra := []verifRecI{mk(2)}
 		src := NewGenericBuffer[verifRecI]()
 		if _, err := src.Write(extra); err != nil {
@@ -65,7 +67,24 @@ func VerifH_C07_wholeFileBloomFilters() {
 			return
 		}
 		groups = append(groups, pending, extra)
-	} else {
+	case 2: // a row group made of two segments: packed column by column
+		extra := []verifRecI{mk(2), {ID: 400, Name: "z"}}
+		a, b := NewGenericBuffer[verifRecI](), NewGenericBuffer[verifRecI]()
+		if _, err := a.Write(extra[:1]); err != nil {
+			vAssert(false, "buffer accepts the rows")
+			return
+		}
+		if _, err := b.Write(extra[1:]); err != nil {
+			vAssert(false, "buffer accepts the rows")
+			return
+		}
+		if _, err := w.WriteRowGroup(MultiRowGroup(a, b)); err != nil {
+			vAssert(false, "multi row group is accepted")
+			return
+		}
+		groups = append(groups, pending, extra)
+		multi = true
+	default:
 		groups = append(groups, pending)
 	}
 	if err := w.Close(); err != nil {
@@ -79,6 +98,10 @@ func VerifH_C07_wholeFileBloomFilters() {
 		return
 	}
 	rgs := f.RowGroups()
+	if multi && len(rgs) == len(groups)+1 {
+		// the two segments may be written as separate row groups
+		groups = [][]verifRecI{groups[0], groups[1][:1], groups[1][1:]}
+	}
 	vAssert(len(rgs) == len(groups), "pending rows and the row group end up in separate row groups")
 	for g := 0; g < len(groups) && g < len(rgs); g++ {
 		chunks := rgs[g].ColumnChunks()
